@@ -115,7 +115,7 @@ def mc_pipeline(ctx, quick):
     for (e, protect, must_fail) in runs:
         cfg = os.path.join(ctx.scratch, "pipe_%d_%d.cfg" % (e, protect))
         open(cfg, "w").write(base.replace("Entry = 4", "Entry = %d" % e).replace("Protect = TRUE", "Protect = %s" % str(protect).upper()))
-        r = ctx.mc("mc/MC_Pipeline.tla", cfg, name="MC_Pipeline[entry=%d,protect=%s]" % (e, protect), expect_ok=False, timeout=3000)
+        r = ctx.mc("mc/MC_Pipeline.tla", cfg, name="MC_Pipeline[entry=%d,protect=%s]" % (e, protect), expect_ok=False, timeout=4 * 3600)
         if must_fail:
             if must_fail not in r.violated:
                 raise core.Machinery("anti-vacuity: MC_Pipeline entry %d protect=%s no longer violates %s" % (e, protect, must_fail))
